@@ -747,6 +747,12 @@ if _doing is not None and "VfLit" not in _doing.Doer.Registry:
           with -> action(**parms)                (Act.parms), each run
         """
 
+        # registered defaults (as deeds made with doify(parms=...) have): every act gets its own copy, into which the
+        # literals of its own `with` / `per` / `cum` clauses are merged
+        Parms = _odict([("vfdefault", 0)])
+        Inits = _odict([("vfdefault", 0)])
+        Ioinits = _odict([("vfdefault", "")])
+
         def __init__(self, **kwa):
             extra = dict((k, v) for k, v in kwa.items() if k not in ("name", "store", "act"))
             super(VfLit, self).__init__(**dict((k, v) for k, v in kwa.items() if k in ("name", "store", "act")))
